@@ -41,3 +41,60 @@ Definition analysis_stream (batches : list (list cdp)) : list cstat :=
    view modes) the analysis thread's; any other interleaving of the two gives the same statistics (C05) *)
 Definition stats_arrival (version : N) (out : scan_out) (analysed : bool) : list cstat :=
   main_stream version (so_stats out) ++ (if analysed then analysis_stream (so_batches out) else []).
+
+(* ------------------------------------------------------------------ one whole run in a check mode *)
+(* (fastpasta/src/init.rs run, lib.rs init_processing / process, controller.rs run) *)
+From FP Require Import Model.RdhChecks Model.CdpRunning Model.Link.
+
+Record run_cfg := {
+  rc_scan : scfg;
+  rc_check : vcfg;                  (* check mode and target *)
+  rc_mute : bool; rc_cap : N; rc_filter : option (list N);     (* -m, -e, -w *)
+  rc_exit : option N;               (* -E *)
+  rc_counts : custom_counts }.      (* custom checks: cdps, triggers_pht *)
+
+(* init_processing: the first RDH0 must pass the RDH0 sanity check and its version lie in 3..=100 *)
+Definition recognised (input : list N) : bool :=
+  let r := decode_rdh (take 64 (input ++ repeat 0 64)) in
+  match snd (rdh0_check {| ss_header_id := None; ss_system_id := None |} r) with
+  | [] => (3 <=? r_header_id r) && (r_header_id r <=? 100)
+  | _ => false
+  end.
+
+Definition vmsg_to_cstat (m : vmsg) : cstat :=
+  match m with
+  | VErr e => CS_error {| m_off := e_off e; m_codes := (if e_code e =? 0 then [] else [e_code e]);
+                          m_body := e_code e; m_fee := None |}
+  | VStats f => CS_alpide f
+  end.
+
+Inductive run_result :=
+| R_too_short                       (* fewer than 8 bytes: no RDH0 can be read *)
+| R_unrecognised                    (* exit 1, nothing analysed *)
+| R_panic (site : N)                (* a validator panics: the process aborts *)
+| R_done (s : cstate) (shown : list emsg) (exit : N).
+
+(* `fatal_flag` = does a fatal error set the any-errors flag (the repaired code) *)
+Definition run_check (fatal_flag : bool) (c : run_cfg) (input : list N) : run_result :=
+  if Nat.ltb (length input) 8 then R_too_short
+  else if negb (recognised input) then R_unrecognised
+  else
+    let out := scan_impl (rc_scan c) input in
+    let version := nth 0 input 0 in
+    let cdps := concat (so_batches out) in
+    let per_id := run_dispatch (rc_check c) cdps in
+    match fold_right (fun idr acc => match acc, snd idr with
+                                     | Panic p, _ => Panic p
+                                     | Ok l, Ok ms => Ok (map vmsg_to_cstat ms ++ l)
+                                     | Ok _, Panic p => Panic p
+                                     end) (Ok []) per_id with
+    | Panic p => R_panic p
+    | Ok vstream =>
+        let a := stats_arrival version out true ++ vstream in
+        let s0 := collect_all a in
+        let s1 := add_custom s0 (custom_errors (rc_counts c) s0) in
+        let s2 := finalize Gen.Facts.error_sort_when_muted (rc_mute c) s1 in
+        let flag := (0 <? k_total s2) || (fatal_flag && match k_fatal s2 with Some _ => true | None => false end) in
+        R_done s2 (displayed {| d_mute := rc_mute c; d_cap := rc_cap c; d_filter := rc_filter c |} s2)
+               (exit_code (rc_exit c) Init_ok flag)
+    end.
